@@ -71,7 +71,7 @@ def run(ck, rng, tier):
             for name, v in o.items():
                 if v != -1:
                     site = name.split("_")[0]
-                    ck.fail("slicing:" + site, "row_not_processed_once",
+                    ck.fail("slicing:" + site, "differs_from_sequential_kernel" if "missing" in site else "row_not_processed_once",
                             "%s: first bad row/col %d with rows=%d threads=%d" % (name, v, R, T),
                             {"rows": R, "threads": T, "kernel": name, "first_bad": v, "replay": "echo 'sweep %d %d' | drv_c13" % (R, T)})
     ck.count("sweep (rows 0..40 x threads 1..24)", nsweep)
